@@ -171,6 +171,10 @@ func (s *Service) proposeEarly(ctx context.Context, duty *beaconblockproposer.Du
 		return
 	}
 	header := headerResponse.Data
+	if header == nil || header.Header == nil || header.Header.Message == nil {
+		s.log.Error().Msg("Obtained beacon block header without content")
+		return
+	}
 
 	// If the current head is up to the prior slot then we can propose immediately.
 	if header.Header.Message.Slot == duty.Slot()-1 {
